@@ -177,6 +177,10 @@ pub fn check_mode(
             Some(i) => *i,
             None => continue, // a function added after parsing
         };
+        if iso.ambiguous_funcs.contains(&i) {
+            out.label("unjudged:function-with-content-identical-twin");
+            continue;
+        }
         let j = match iso.funcs.fwd.get(&i) {
             Some(j) => *j,
             None => {
@@ -236,6 +240,10 @@ pub fn check_mode(
                 continue;
             }
         };
+        if iso.ambiguous_funcs.contains(&(fi as u32 + da.imp_funcs.len() as u32)) {
+            out.label("unjudged:function-with-content-identical-twin");
+            continue;
+        }
         match truth.get(&x) {
             Some(want) if want == outoff => {
                 checked += 1;
